@@ -436,6 +436,7 @@ class Engine:
         raise Unsupported('type mismatch: %r where %r expected' % (vt, t))
 
     def dict_set(self, st, d, k, v):
+        if getattr(d, 'shallow_copy', False): raise Unsupported('aliasing: key set of a shallow dict copy is changed')
         cur = self.term(st, d); t = d.t; th = t.kth()
         nk = FreshConst(th.S, 'ks'); st.pc.append(nk == If(th.Has(t.keys(cur), k), t.keys(cur), th.App(t.keys(cur), th.One(k))))
         self.write_path(st, d.root, d.path, t.mk(nk, Store(t.map(cur), k, v)))
